@@ -66,6 +66,10 @@ type c17tExtra struct {
 	// datagram can be sent - the server registers the handshake, its answer fails inside the socket (EINVAL, what the
 	// kernel does) and the handshake stays half-open.
 	Lose int `json:"lose"`
+	// LateMs > 0 (discoverable mode, Lose 0): the ClientAuth is not lost but late - the network delivers it the server's
+	// HandshakeTimeout + LateMs - 1 ms after it was sent, i.e. at the very instant the server's timer fires (1) or after it
+	// (a slow path): the receive loop then looks up a handshake that the timer is removing / has removed.
+	LateMs int `json:"late,omitempty"`
 	// the client is closed this long after the server's handshake timeout has passed (measured from the end of the client's
 	// Handshake call), which keeps the case running across the expiry; -1: it is closed at once (the case may end, and
 	// the server may be closed, while the server's timer is still pending)
@@ -192,6 +196,10 @@ func c17tScenario(c c17tCase, v *vlib.Verdict) {
 			for k, x := range c.Extra {
 				switch {
 				case x.Lose == 0 && MessageType(d.Data[0]) == MessageTypeClientAuth && c17tSameAddr(d.Src, extraAddr[k]):
+					if x.LateMs > 0 {
+						d.Delay = scfg.HandshakeTimeout + time.Duration(x.LateMs-1)*time.Millisecond
+						return []simnet.Datagram{d}
+					}
 					return nil
 				case x.Lose == 1 && MessageType(d.Data[0]) == MessageTypeServerAuth && c17tSameAddr(d.Dst, extraAddr[k]):
 					return nil
@@ -664,6 +672,11 @@ func c17tScenario(c c17tCase, v *vlib.Verdict) {
 		if len(t0) > 0 {
 			v.Label("half-open-handshake:registered-by-server")
 		}
+		for _, x := range c.Extra {
+			if x.LateMs > 0 && x.Lose == 0 && !c.Hidden && expired {
+				v.Label("half-open-handshake:ClientAuth-arrives-" + map[bool]string{true: "at", false: "after"}[x.LateMs == 1] + "-expiry")
+			}
+		}
 		if pendingAtClose {
 			v.Label("half-open-handshake:server-closed-while-timer-pending")
 		}
@@ -898,7 +911,7 @@ func c17tRunFn(t *testing.T) func(c c17tCase, v *vlib.Verdict) {
 			return
 		}
 		for _, x := range c.Extra {
-			if x.AtMs < 0 || x.AtMs > 5000 || x.Lose < 0 || x.Lose > 1 || x.StayMs < -1 || x.StayMs > 5000 {
+			if x.AtMs < 0 || x.AtMs > 5000 || x.Lose < 0 || x.Lose > 1 || x.StayMs < -1 || x.StayMs > 5000 || x.LateMs < 0 || x.LateMs > 5000 {
 				v.Discard = true
 				return
 			}
@@ -1064,6 +1077,9 @@ func c17tGen(t *rapid.T) c17tCase {
 				Lose:   rapid.IntRange(0, 1).Draw(t, "lose"),
 				StayMs: rapid.SampledFrom([]int{-1, 1, 1, 100, 100}).Draw(t, "stay"),
 			})
+			if x := &c.Extra[i]; x.Lose == 0 && !c.Hidden {
+				x.LateMs = rapid.SampledFrom([]int{0, 0, 1, 2, 51}).Draw(t, "late")
+			}
 		}
 		if rapid.Bool().Draw(t, "paced-traffic") {
 			fam = append(fam, []c17tOp{{Obj: 0, Kind: c17tPaced, Arg: rapid.IntRange(3, 15).Draw(t, "writes") + 16*rapid.IntRange(0, len(c17tPacedGaps)-1).Draw(t, "gap"),
